@@ -59,7 +59,7 @@ def nontrivial(prop, scn, evs):
     return len({e['kind'] for e in evs if e['ev'] == 'garbage' and not e['is_valid']}) >= 4
 
 RULES = {'C19': 'crypto sweeps with >= 600 lengths decrypted; encrypted message scenarios with >= 50 non-empty poll answers compared', 'C13': 'round-trip scenarios in which >= 40 command types were decoded from valid SDK encodings; garbage scenarios with >= 4 kinds of malformed frame; message scenarios with >= 50 non-empty poll answers compared'}
-ASSUMPTIONS = ['poll responses: messages with payloads of 1..4096 bytes (boundary lengths), with and without headers of all kinds, explicit and server-assigned ids, sent over TCP and HTTP, polled back over both in every window (offset, 1..3) and as a whole',
-               'requests: 49 command types built with seeded structure-aware values (numeric / 1,2,3,255-byte string identifiers, optional fields, all header kinds, all polling strategies and partitioning kinds), SDK-encoded and decoded by the server\'s own decoder (guarded re-export); the snapshot command and QUIC framing are not covered',
+ASSUMPTIONS = ['poll responses: messages with payloads of 1..4096 bytes (boundary lengths), with and without headers of all kinds, explicit and server-assigned ids, sent over TCP, HTTP and QUIC, polled back over all three in every window (offset, 1..3) and as a whole',
+               'requests: 49 command types built with seeded structure-aware values (numeric / 1,2,3,255-byte string identifiers, optional fields, all header kinds, all polling strategies and partitioning kinds), SDK-encoded and decoded by the server\'s own decoder (guarded re-export); the snapshot command is not covered',
                'responses are covered end to end by the other lenses (every scenario runs through the real TCP handlers and SDK decoders; the catalogue lens also over HTTP/JSON)',
                'exhaustive structure-aware fidelity over ALL values is outside this technique: the values are sampled']
